@@ -2,7 +2,9 @@
 // ARBITRARY WELL-FORMED Repr (class per harness instance: inline, or heap with a concrete capacity; symbolic
 // length, sign and contents), asserting the representation invariant `wf_repr` on every result plus the value
 // (sign + word sequence read directly from the fields), under CBMC's pointer / bounds / dealloc-size /
-// double-free checks.  Bound: heap capacities 3..=9, lengths <= 7 (ones: n <= 200).
+// double-free checks and --memory-leak-check (every harness frees what it owns before it returns, so an old
+// buffer that an operation forgets to release is reported).  Bound: heap capacities 3..=9, lengths <= 7
+// (ones: n <= 200).
 use super::*;
 #[allow(unused_imports)]
 use alloc::boxed::Box;
